@@ -200,6 +200,21 @@ CHECKS = [
         'note': 'documented-as-assumed-away usage (empty-stack pops, unaligned pointers, overlapping operands) is never generated; '
                 'library scratch registers and the return-register content after fcall/fret are not compared',
     },
+    {
+        'property_id': 'C04', 'level': 'exploration', 'design_ref': 'DESIGN.md 4 C04/C05, 3.7',
+        'technique': 'runtime monitoring: SYNC-point monitor reading every declared variable AND the library shared state (carries, table registers) through the DeviceMemory hook, judged by a spec table transcribed from the macro documentation',
+        'text': 'The real hex library runs on the real interpreter (w=32/64, after hex.init); at a SYNC op between macro '
+                'applications the monitor reads every cell of every declared variable and the library state the macros share '
+                '(add/sub carry, mul registers, table result/return registers) and compares them and the branch marker with a '
+                '79-entry spec table transcribed from the doc comments (memory, logics, math_basic, math incl. shifted/constant '
+                'forms, shifts, cond_jumps, mul, div/idiv with every rem_opt). Single-macro programs enumerate every operand '
+                'value when the macro reads <= 16 bits (all 65536 digit pairs for n=2) and sample boundary-biased values above; '
+                'sequence programs of random applications over shared variables check that no carry or table state leaks; '
+                'slices are re-run on the pure-Python loop.',
+        'note': 'spec table built by a sub-agent under the rule "transcribe the documentation, never the body", reviewed; '
+                'inputs the documentation leaves open (dirty undeclared state for table-using macros, overflowing idiv) are '
+                'counted as unspecified; w=16 is not exercised (hex.init does not fit)',
+    },
 ]
 
 _TODO = 'check not built yet in this session (work in progress; see DESIGN.md for the planned monitor)'
